@@ -718,6 +718,12 @@ func (e *EvalCtx) call(n *XNode) Val {
 	case "f64bits":
 		need(1)
 		return S{app("f64bits", e.evalS(args[0]).T), intT}
+	case "f32frombits":
+		need(1)
+		return S{app("f32frombits", e.evalS(args[0]).T), types.Typ[types.Float32]}
+	case "f64frombits":
+		need(1)
+		return S{app("f64frombits", e.evalS(args[0]).T), types.Typ[types.Float64]}
 	case "isnan":
 		need(1)
 		return S{app("f_isnan", e.evalS(args[0]).T), boolT}
